@@ -19,14 +19,6 @@ pub struct TaskDb<S: Storage> {
 }
 //@end
 pub mod apply { pub use super::apply_operations; }
-pub open spec fn op_uuid(o: Operation) -> Option<Uuid> {
-    match o {
-        Operation::Create { uuid, .. } => Some(uuid),
-        Operation::Update { uuid, .. } => Some(uuid),
-        Operation::Delete { uuid, .. } => Some(uuid),
-        Operation::UndoPoint => None,
-    }
-}
 /// u is the task of one of the first n operations
 pub open spec fn uuid_among(ops: Seq<Operation>, n: int, u: Uuid) -> bool {
     exists|i: int| 0 <= i < n && op_uuid(#[trigger] ops[i]) == Some(u)
